@@ -77,6 +77,11 @@ def verify(engine: Engine, spec: FunctionSpec) -> FunctionResult:
         res.paths += 1
         try:
             pre_state = None
+            if hasattr(spec, "direct"):
+                # obligations stated directly over artefacts the real code produced (pattern texts, trees)
+                spec.direct(run)
+                res.exits += 1
+                raise PathEnd
             recv, args, kwargs = spec.setup(run)
             pre_state = getattr(run, "pre", None)
             try:
